@@ -148,8 +148,12 @@ V('v02.s4', 'C02', 'S', None, 'gate as negated >=', (MODELS, ST, 'if iteration <
 V('v02.s5', 'C02', 'S', None, 'offset bound rewritten', (MODELS, ST, 'if t_check + offset >= len(self.span):', 'if t_check + offset > len(self.span) - 1:'))
 V('v02.s6', 'C02', 'S', None, 'method-form reduction', (MODELS, ST, 'np.all(np.abs(diff) < tol)', '(np.abs(diff) < tol).all()'))
 V('v02.s7', 'C02', 'S', None, 'not any(>=)', (MODELS, ST, 'np.all(np.abs(diff) < tol)', 'not np.any(np.abs(diff) >= tol)'))
-V('v02.i1', 'C02', 'I', None, 'norm-based convergence test',
+V('v02.i1', 'C02', 'I', None, 'ufunc-based comparison (not in the idiom table)',
+  (MODELS, ST, 'np.all(np.abs(diff) < tol)', 'np.less(np.abs(diff), tol).all()'))
+V('v02.s8', 'C02', 'S', None, 'infinity norm < tol (same predicate, also for an empty check list)',
   (MODELS, ST, 'np.all(np.abs(diff) < tol)', 'np.linalg.norm(diff, np.inf) < tol'))
+V('v02.22', 'C02', 'F', 'C02.R5', 'Euclidean norm (seeded C02-r2-1)', (MODELS, ST, 'np.all(np.abs(diff) < tol)', 'np.linalg.norm(diff) < tol'))
+V('v02.23', 'C02', 'F', 'C02.R5', 'max(abs) fails for an empty check list (seeded C15-r2-3)', (MODELS, ST, 'np.all(np.abs(diff) < tol)', 'np.max(np.abs(diff)) < tol'))
 
 # ---------------------------------------------------------------------------
 # C06
